@@ -34,6 +34,7 @@ VARIABLES cfg,
           ev
 vars == <<cfg, att, hk, ecnt, link, nlink, ntrig, fl, called, ev>>
 View == <<cfg, att, hk, ecnt, link, nlink, ntrig, fl>>
+MCView == <<View, called>>       \* exhaustive runs keep the history variable apart (ev is never read by Next)
 
 Threads == {1, 2}
 Evs == {"a", "b", "c"}
